@@ -1,14 +1,15 @@
 """C10: every bitmap rectangle the server sends reaches the application exactly once."""
 from session import *
 
-RULE = ("in state Data: sequences of 1-4 fast-path PDUs, 0-8 updates per PDU, 0-6 rectangles per bitmap update, every "
+RULE = ("in state Data: sequences of 1-7 fast-path PDUs, 0-8 updates per PDU, 0-6 rectangles per bitmap update, every "
         "rectangle field at 16-bit boundaries, data lengths {0,1,2,255,256,..,large}, with / without compression header "
         "(flags 0, 1, 0x401, 0x400), short and long fast-path length forms, mixtures with pointer / synchronize / colour / "
         "unknown updates, every fast-path action byte's security flags.  Expected callbacks are computed by the generator "
         "from the structure it encoded (reference encoder gen/rdp.py).  Non-trivial = at least one rectangle; distinct = "
         "distinct (update-kind sequence, rect counts, flag pattern, length form).")
 TRUSTED_BASE = ["Coq 8.16.1 kernel", "hand-written models coq/Msg.v, coq/LayoutsGlobal.v, coq/Global.v tied to /repo by this correspondence run",
-                "extraction + ocaml/session/driver.ml", "Rust harness/src/session.rs + hooks", "gen/rdp.py reference encoder of fast-path updates (the oracle's source of truth)"]
+                "extraction + ocaml/session/driver.ml", "Rust harness/src/session.rs + hooks", "gen/rdp.py reference encoder of fast-path updates (the oracle's source of truth)",
+                "coq/RefFastPath.v reference encoder (the spec the theorems are stated against; agrees with gen/rdp.py on the golden PDU of C10_proofs.ex_wire_*)"]
 ASSUMPTIONS = ["updates are unfragmented and uncompressed (updateHeader bits 4-7 zero) as negotiated by the client's capabilities",
                "whole frames are delivered (C13)"]
 
@@ -70,6 +71,56 @@ def gen_cases(tier, rng):
     r1, e1 = bitmap_rect(9, 8, 7, 6, 1, 1, 32, 0, b"\x01\x02\x03\x04"), "[9.8.7.6.1.1.32.0.%s]" % summ(b"\x01\x02\x03\x04")
     for other in [fp_ptr_null(), fp_sync(), fp_color(), fp_ptr_pos(), fp_ptr_default(), fp_unknown(7), fp_unknown(13, b""), fp_unknown(0, b"\x01\x00\x00")]:
         add([(fp_frame(other + fp_bitmap([r1]) + other + fp_bitmap([r1, r1]) + other), [e1, e1, e1])])
+    # ---- boundaries of every guard / constant on the code path (C10 builder review)
+    def rect(l, t, r, b, w, h, bpp, f, data, **kw):
+        return (bitmap_rect(l, t, r, b, w, h, bpp, f, data, **kw), "[%d.%d.%d.%d.%d.%d.%d.%d.%s]" % (l, t, r, b, w, h, bpp, f & 1, summ(data)))
+    def one(us_rects, **kw):
+        """one PDU, one bitmap update"""
+        add([(fp_frame(fp_bitmap([x[0] for x in us_rects]), **kw), [x[1] for x in us_rects])])
+    tail = rect(11, 12, 13, 14, 3, 1, 24, 0, b"\xaa\xbb\xcc")          # a rectangle after the one under test shows any desynchronisation
+    # the header test reads exactly bit 0 and bit 10 of flags; every other bit is irrelevant; is_compress = bit 0
+    for f in (0x2, 0x3, 0x8, 0x101, 0x201, 0x801, 0x4001, 0x8001, 0x0200, 0x0800, 0x402, 0x403, 0xfbfe, 0xfbff, 0xfffe, 0xffff, 0x7ffe, 0x7fff):
+        one([rect(1, 2, 3, 4, 5, 6, 16, f, b"\x10\x20\x30\x40\x50"), tail])
+    # data / bitmapLength / cbCompMainBodySize boundaries, with and without the header, followed by another rectangle
+    for f in (0, 1, 0x400, 0x401):
+        for n in (0, 1, 2, 7, 8, 9, 247, 248, 255, 256, 257, 511, 512):
+            one([rect(n & 7, 2, 3, 4, 5, 6, 15, f, fill(n, n & 255)), tail, rect(1, 1, 1, 1, 1, 1, 8, f, b"")])
+    # the other two header fields are free (cbScanWidth, cbUncompressedSize)
+    for sw, us in ((0, 0), (0xffff, 0xffff), (0x8000, 1), (0x100, 0xff00)):
+        one([rect(1, 2, 3, 4, 5, 6, 16, 1, b"\x01\x02\x03", hdr=le16(0) + le16(3) + le16(sw) + le16(us)), tail])
+    # every 16-bit field at its boundaries, all fields distinct (order / endianness / truncation)
+    for vals in ((0xffff, 0xfffe, 0xfffd, 0xfffc, 0xfffb, 0xfffa, 0xfff9), (0x8000, 0x7fff, 0x0100, 0x00ff, 0x0001, 0x0000, 0x0180),
+                 (0, 0, 0, 0, 0, 0, 0), (0x1234, 0x5678, 0x9abc, 0xdef0, 0x0fed, 0xcba9, 0x8765)):
+        for f in (0, 1, 0x401):
+            one([rect(*vals, f, b"\x01\x02"), tail])
+    # update size field boundaries (le16: 255 / 256 / 257, 0xffff does not fit a fast-path PDU), bitmap and non-bitmap
+    for size in (4, 254, 255, 256, 257, 511, 512, 4095, 4096):
+        n = size - 4 - 18
+        if n >= 0: one([rect(1, 2, 3, 4, 5, 6, 16, 0x401, fill(n, 3))])
+        if n - 8 >= 0: one([rect(1, 2, 3, 4, 5, 6, 16, 1, fill(n - 8, 4))])
+        add([(fp_frame(fp_unknown(7, fill(size, 5)) + fp_bitmap([tail[0]]) + fp_color(xor=fill(size, 6), andm=b"") + fp_bitmap([tail[0]])), [tail[1], tail[1]])])
+    add([(fp_frame(fp_bitmap([])), [])])
+    # fast-path length forms: empty PDU, last short length 0x7f, first long 0x80, long form of small PDUs, 0xff/0x100, 0x3fff/0x4000, 0x7fff
+    add([(fp_frame(b"", long=False), []), (fp_frame(b"", long=True), []), (fp_frame(fp_bitmap([tail[0]])), [tail[1]])])
+    for total, long in ((0x7e, False), (0x7f, False), (0x7f, True), (0x80, True), (0x81, True), (0xff, True), (0x100, True), (0x101, True),
+                        (0x3fff, True), (0x4000, True), (0x4001, True), (0x7ffe, True), (0x7fff, True)):
+        n = total - (3 if long else 2) - 3 - 4 - 18
+        r = rect(7, 7, 8, 8, 2, 2, 16, 0x401, fill(n, total & 255))
+        for action in (0, 0xc0):
+            add([(fp_frame(fp_bitmap([r[0]]), action=action, long=long), [r[1]]), (fp_frame(fp_bitmap([tail[0]])), [tail[1]])])
+    # every non-bitmap code, with a body that LOOKS like a bitmap update: no callbacks, the following update is intact
+    looks = bitmap_update([tail[0], tail[0]])
+    for code in (0, 2, 3, 4, 5, 6, 7, 8, 9, 10, 11, 12, 13, 14, 15):
+        add([(fp_frame(fp_unknown(code, looks) + fp_bitmap([tail[0]]) + fp_unknown(code, b"") + fp_unknown(code, b"\x01")), [tail[1]])])
+    # long loops: many rectangles in one update, many updates in one PDU
+    many = [rect(i, i + 1, i + 2, i + 3, 1, 1, 16, (0, 1, 0x401)[i % 3], fill(i % 5, i)) for i in range(64)]
+    one(many)
+    add([(fp_frame(b"".join((fp_sync() if i % 2 else fp_bitmap([many[i][0]])) for i in range(64))), [many[i][1] for i in range(0, 64, 2)])])
+    # several PDUs one after the other, both length forms, nothing carried over from one PDU to the next
+    a_, b_, c_ = rect(1, 1, 2, 2, 1, 1, 16, 1, b"\x01"), rect(3, 3, 4, 4, 1, 1, 16, 0, b"\x02\x03"), rect(5, 5, 6, 6, 1, 1, 16, 0x401, b"")
+    add([(fp_frame(fp_bitmap([a_[0]]), long=True), [a_[1]]), (fp_frame(b""), []), (fp_frame(fp_ptr_null()), []),
+         (fp_frame(fp_bitmap([b_[0], c_[0]]), action=0x80), [b_[1], c_[1]]), (fp_frame(fp_bitmap([a_[0]]) + fp_bitmap([c_[0]]), long=True), [a_[1], c_[1]]),
+         (fp_frame(fp_bitmap([])), []), (fp_frame(fp_bitmap([b_[0]])), [b_[1]])])
     # random
     for _ in range(400 if quick else 8000):
         pdus = []
